@@ -435,9 +435,9 @@ def gen_level_variants(src: str, class_names) -> List[Tuple[str, str, str]]:
 def _run_one(args):
     prop, rel, kind, desc, new_src = args
     try:
-        mod = importlib.import_module('onlsa.rules.%s' % prop.lower())
+        from .rules import check_property
         ctx = Ctx(prop, 'thorough', overlay={rel: new_src})
-        mod.check(ctx)
+        check_property(prop, ctx)
         known = load_known()
         new = [f for f in ctx.findings if f.ident() not in known]
         ctx.raise_deferred(bool(new))
@@ -565,9 +565,9 @@ def _corpus_jobs(prop, ctx):
 def _run_overlay(args):
     prop, kind, ident, overlay = args
     try:
-        mod = importlib.import_module('onlsa.rules.%s' % prop.lower())
+        from .rules import check_property
         ctx = Ctx(prop, 'thorough', overlay=overlay)
-        mod.check(ctx)
+        check_property(prop, ctx)
         known = load_known()
         new = [f for f in ctx.findings if f.ident() not in known]
         ctx.raise_deferred(bool(new))
